@@ -1615,3 +1615,350 @@ func c07ForkEdge(c *core.Ctx, root *packages.Package) {
 	})
 	c.Check(closes, "C07.forkedge", "TaskMaster.delFork#close-by-task", df.Decl.Pos(), "delFork does not close the edge stored under the task's name in %s: the edge of a fork without keys is never closed", byTask.Name())
 }
+
+// c13MarshalPure (F126): writing a node to JSON (or to text) does not change the node. In every MarshalJSON/MarshalText method
+// of the pipeline and AST packages no statement stores through the receiver: not through the receiver itself, not through a
+// local that was initialised with a slice, map or pointer of the receiver (raw.Args = n.Args; raw.Args[i] = … writes n.Args[i]),
+// not through an embedded alias pointer of the receiver.
+func c13MarshalPure(c *core.Ctx) {
+	c.Rule("C13.marshalpure", "A9: F126: a MarshalJSON/MarshalText method does not store through its receiver — neither directly nor through a local (or a field of a local struct) that aliases a slice, map or pointer of the receiver: a pipeline written to JSON is the same pipeline afterwards (InfluxQLNode.MarshalJSON turned the duration arguments of the node itself into strings; the pipeline then rendered |elapsed('value', '3s'))")
+	n := 0
+	for _, rel := range []string{"pipeline", "tick/ast", "pipeline/tick"} {
+		pkg := c.P.Pkg(rel)
+		if pkg == nil {
+			continue
+		}
+		info := pkg.TypesInfo
+		for _, f := range core.AllFuncs(pkg) {
+			if f.Decl.Recv == nil || f.Decl.Body == nil || (f.Decl.Name.Name != "MarshalJSON" && f.Decl.Name.Name != "MarshalText") {
+				continue
+			}
+			if len(f.Decl.Recv.List) == 0 || len(f.Decl.Recv.List[0].Names) == 0 {
+				n++
+				c.Ok("C13.marshalpure", core.RecvName(f.Decl)+"."+f.Decl.Name.Name)
+				continue
+			}
+			recv := info.Defs[f.Decl.Recv.List[0].Names[0]]
+			if recv == nil {
+				continue
+			}
+			c.Analysed(f)
+			n++
+			construct := core.RecvName(f.Decl) + "." + f.Decl.Name.Name
+			bad, what := c13StoresThrough(info, f.Decl.Body, recv, nil)
+			if bad != token.NoPos {
+				c.Fail("C13.marshalpure", construct, bad, "%s stores through its receiver (%s): writing the node to JSON changes the node — what is rendered, written or run from the same pipeline afterwards is not what was defined", construct, what)
+			} else {
+				c.Ok("C13.marshalpure", construct)
+			}
+		}
+	}
+	c.Floor("C13.marshalpure", "MarshalJSON/MarshalText methods", n, 40)
+	// the same for the two renderers: a Build method of pipeline/tick does not store through the pipeline node it renders,
+	// a Format method of tick/ast does not store through the node it writes
+	c.Rule("C13.renderpure", "A9: F126 class: rendering does not change what is rendered — a Build method of pipeline/tick does not store through the pipeline node it is given (no in-place sort of the node's slices, no element store), a Format method of tick/ast does not store through its receiver")
+	m := 0
+	if tp := c.P.Pkg("pipeline/tick"); tp != nil {
+		for _, f := range core.AllFuncs(tp) {
+			if f.Decl.Recv == nil || f.Decl.Body == nil || f.Decl.Name.Name != "Build" || len(f.Decl.Type.Params.List) == 0 || len(f.Decl.Type.Params.List[0].Names) == 0 {
+				continue
+			}
+			root := tp.TypesInfo.Defs[f.Decl.Type.Params.List[0].Names[0]]
+			if root == nil {
+				continue
+			}
+			if _, ok := root.Type().Underlying().(*types.Pointer); !ok {
+				continue
+			}
+			c.Analysed(f)
+			m++
+			construct := core.RecvName(f.Decl) + ".Build"
+			if bad, what := c13StoresThrough(tp.TypesInfo, f.Decl.Body, root, nil); bad != token.NoPos {
+				c.Fail("C13.renderpure", construct, bad, "%s stores through the pipeline node it renders (%s): rendering a pipeline to TICKscript changes the pipeline", construct, what)
+			} else {
+				c.Ok("C13.renderpure", construct)
+			}
+		}
+	}
+	if ap := c.P.Pkg("tick/ast"); ap != nil {
+		for _, f := range core.AllFuncs(ap) {
+			if f.Decl.Recv == nil || f.Decl.Body == nil || f.Decl.Name.Name != "Format" || len(f.Decl.Recv.List) == 0 || len(f.Decl.Recv.List[0].Names) == 0 {
+				continue
+			}
+			root := ap.TypesInfo.Defs[f.Decl.Recv.List[0].Names[0]]
+			if root == nil {
+				continue
+			}
+			c.Analysed(f)
+			m++
+			construct := core.RecvName(f.Decl) + ".Format"
+			exempted := ""
+			bad, what := c13StoresThrough(ap.TypesInfo, f.Decl.Body, root, func(pos token.Pos, what string) bool {
+				// read and verified: the store fills an empty cache field with the text about to be written
+				if fld := c13MemoStore(ap.TypesInfo, f.Decl.Body, root, pos); fld != "" && c13RenderPureExempt[construct+"#"+fld] != "" {
+					exempted = c13RenderPureExempt[construct+"#"+fld]
+					return true
+				}
+				return false
+			})
+			if bad == token.NoPos && exempted != "" {
+				c.Ok("C13.renderpure", construct, "exempt: "+exempted)
+				continue
+			}
+			if bad != token.NoPos {
+				c.Fail("C13.renderpure", construct, bad, "%s stores through the node it writes (%s): formatting a script changes its syntax tree", construct, what)
+			} else {
+				c.Ok("C13.renderpure", construct)
+			}
+		}
+	}
+	c.Floor("C13.renderpure", "Build and Format methods", m, 40)
+}
+
+// c13StoresThrough reports the first statement of body that stores through root: directly, through a local that aliases a
+// slice, map or pointer reached from root, through a field of a local struct initialised with one, or by an in-place builtin
+// or sort on such memory.
+func c13StoresThrough(info *types.Info, body *ast.BlockStmt, recv types.Object, skip func(token.Pos, string) bool) (token.Pos, string) {
+	f := struct{ Decl struct{ Body *ast.BlockStmt } }{}
+	f.Decl.Body = body
+	refLike := func(e ast.Expr) bool {
+		t := info.TypeOf(e)
+		if t == nil {
+			return false
+		}
+		switch t.Underlying().(type) {
+		case *types.Basic:
+			return false
+		}
+		return true
+	}
+	aliasVar := map[types.Object]bool{}
+	type lf struct {
+		l types.Object
+		f string
+	}
+	fieldRooted := map[lf]int{}
+	fieldOther := map[lf]int{}
+	// the name of the first embedded hop of a promoted selection, "" otherwise
+	firstHop := func(sel *ast.SelectorExpr) string {
+		s, ok := info.Selections[sel]
+		if !ok || len(s.Index()) < 2 {
+			return ""
+		}
+		t := s.Recv()
+		if p, ok := t.Underlying().(*types.Pointer); ok {
+			t = p.Elem()
+		}
+		if st, ok := t.Underlying().(*types.Struct); ok && s.Index()[0] < st.NumFields() {
+			return st.Field(s.Index()[0]).Name()
+		}
+		return ""
+	}
+	var rooted func(e ast.Expr) bool
+	rooted = func(e ast.Expr) bool {
+		switch x := e.(type) {
+		case *ast.Ident:
+			o := info.Uses[x]
+			return o != nil && (o == recv || aliasVar[o])
+		case *ast.SelectorExpr:
+			if id, ok := ast.Unparen(x.X).(*ast.Ident); ok {
+				if o := info.Uses[id]; o != nil && o != recv && !aliasVar[o] {
+					k := lf{o, x.Sel.Name}
+					if h := firstHop(x); h != "" {
+						k = lf{o, h}
+					}
+					return fieldRooted[k] > 0 && fieldOther[k] == 0
+				}
+			}
+			return rooted(x.X)
+		case *ast.IndexExpr:
+			return rooted(x.X)
+		case *ast.SliceExpr:
+			return rooted(x.X)
+		case *ast.StarExpr:
+			return rooted(x.X)
+		case *ast.ParenExpr:
+			return rooted(x.X)
+		case *ast.UnaryExpr:
+			return x.Op == token.AND && rooted(x.X)
+		case *ast.CallExpr:
+			if tv, ok := info.Types[x.Fun]; ok && tv.IsType() && len(x.Args) == 1 {
+				return rooted(x.Args[0])
+			}
+		}
+		return false
+	}
+	// two passes: aliases may be chained
+	for pass := 0; pass < 3; pass++ {
+		fieldRooted, fieldOther = map[lf]int{}, map[lf]int{}
+		bind := func(lhs ast.Expr, rhs ast.Expr) {
+			r := rhs != nil && refLike(rhs) && rooted(rhs)
+			switch l := ast.Unparen(lhs).(type) {
+			case *ast.Ident:
+				o := info.Defs[l]
+				if o == nil {
+					o = info.Uses[l]
+				}
+				if o != nil && o != recv && r {
+					aliasVar[o] = true
+				}
+				// a composite literal (or its address) bound to a local: its fields
+				cl := rhs
+				if u, ok := cl.(*ast.UnaryExpr); ok && u.Op == token.AND {
+					cl = u.X
+				}
+				if lit, ok := cl.(*ast.CompositeLit); ok && o != nil {
+					for _, el := range lit.Elts {
+						if kv, ok := el.(*ast.KeyValueExpr); ok {
+							if k, ok := kv.Key.(*ast.Ident); ok {
+								if refLike(kv.Value) && rooted(kv.Value) {
+									fieldRooted[lf{o, k.Name}]++
+								} else {
+									fieldOther[lf{o, k.Name}]++
+								}
+							}
+						}
+					}
+				}
+			case *ast.SelectorExpr:
+				if id, ok := ast.Unparen(l.X).(*ast.Ident); ok {
+					if o := info.Uses[id]; o != nil && o != recv && !aliasVar[o] && firstHop(l) == "" {
+						if r {
+							fieldRooted[lf{o, l.Sel.Name}]++
+						} else {
+							fieldOther[lf{o, l.Sel.Name}]++
+						}
+					}
+				}
+			}
+		}
+		ast.Inspect(f.Decl.Body, func(nd ast.Node) bool {
+			switch s := nd.(type) {
+			case *ast.AssignStmt:
+				if len(s.Lhs) == len(s.Rhs) {
+					for i := range s.Lhs {
+						bind(s.Lhs[i], s.Rhs[i])
+					}
+				}
+			case *ast.ValueSpec:
+				if len(s.Names) == len(s.Values) {
+					for i := range s.Names {
+						bind(s.Names[i], s.Values[i])
+					}
+				}
+			case *ast.RangeStmt:
+				if s.Value != nil && s.Tok == token.DEFINE && rooted(s.X) {
+					if id, ok := s.Value.(*ast.Ident); ok {
+						if o := info.Defs[id]; o != nil {
+							if _, basic := o.Type().Underlying().(*types.Basic); !basic {
+								if _, iface := o.Type().Underlying().(*types.Interface); !iface {
+									aliasVar[o] = true
+								}
+							}
+						}
+					}
+				}
+			}
+			return true
+		})
+	}
+	// stores
+	bad := token.NoPos
+	what := ""
+	through := func(lhs ast.Expr) bool {
+		switch l := ast.Unparen(lhs).(type) {
+		case *ast.SelectorExpr:
+			if id, ok := ast.Unparen(l.X).(*ast.Ident); ok {
+				if o := info.Uses[id]; o != nil && o != recv && !aliasVar[o] {
+					if h := firstHop(l); h != "" {
+						k := lf{o, h}
+						return fieldRooted[k] > 0 && fieldOther[k] == 0
+					}
+					return false // a field of a local struct
+				}
+			}
+			return rooted(l.X)
+		case *ast.IndexExpr:
+			return rooted(l.X)
+		case *ast.StarExpr:
+			return rooted(l.X)
+		}
+		return false
+	}
+	ast.Inspect(f.Decl.Body, func(nd ast.Node) bool {
+		if bad != token.NoPos && (skip == nil || !skip(bad, what)) {
+			return false
+		}
+		switch s := nd.(type) {
+		case *ast.AssignStmt:
+			for _, l := range s.Lhs {
+				if through(l) {
+					bad, what = l.Pos(), types.ExprString(l)
+				}
+			}
+		case *ast.IncDecStmt:
+			if through(s.X) {
+				bad, what = s.X.Pos(), types.ExprString(s.X)
+			}
+		case *ast.CallExpr:
+			// copy(dst, …), sort.*(x), delete(m, k) on memory of the receiver
+			if core.IsBuiltin(info, s, "copy") || core.IsBuiltin(info, s, "delete") || core.IsBuiltin(info, s, "clear") {
+				if len(s.Args) > 0 && rooted(s.Args[0]) {
+					bad, what = s.Pos(), types.ExprString(s)
+				}
+			}
+			if cal := core.Callee(info, s); cal != nil && cal.Pkg() != nil && (cal.Pkg().Path() == "sort" || cal.Pkg().Path() == "slices") && len(s.Args) > 0 && rooted(s.Args[0]) {
+				switch cal.Name() {
+				case "Sort", "Stable", "Strings", "Ints", "Float64s", "Slice", "SliceStable", "SortFunc", "SortStableFunc", "Reverse":
+					bad, what = s.Pos(), types.ExprString(s)
+				}
+			}
+		}
+		return true
+	})
+	if bad != token.NoPos && skip != nil && skip(bad, what) {
+		return token.NoPos, ""
+	}
+	return bad, what
+}
+
+// c13RenderPureExempt: stores of a Format method that were read and do not change what the node denotes. Each is accepted
+// only in the shape c13MemoStore verifies (the store stands under `if <the same field> == ""`).
+var c13RenderPureExempt = map[string]string{
+	"DurationNode.Format#Literal": "the literal of a duration node built without source text is filled in with the text Format is about to write; Equal compares Dur only and the parser always sets Literal",
+}
+
+// c13MemoStore: the store at pos assigns a field of root and stands directly under an if whose condition is
+// `<root>.<that field> == ""`; the name of the field, "" otherwise.
+func c13MemoStore(info *types.Info, body *ast.BlockStmt, root types.Object, pos token.Pos) string {
+	ok := ""
+	ast.Inspect(body, func(n ast.Node) bool {
+		is, isIf := n.(*ast.IfStmt)
+		if !isIf || is.Init != nil || is.Else != nil {
+			return true
+		}
+		be, isBin := ast.Unparen(is.Cond).(*ast.BinaryExpr)
+		if !isBin || be.Op != token.EQL {
+			return true
+		}
+		if bl, isLit := ast.Unparen(be.Y).(*ast.BasicLit); !isLit || bl.Value != `""` {
+			return true
+		}
+		csel, isSel := ast.Unparen(be.X).(*ast.SelectorExpr)
+		if !isSel {
+			return true
+		}
+		if id, isID := ast.Unparen(csel.X).(*ast.Ident); !isID || info.Uses[id] != root {
+			return true
+		}
+		for _, st := range an.Effective(is.Body.List) {
+			if as, isAs := st.(*ast.AssignStmt); isAs && len(as.Lhs) == 1 && as.Lhs[0].Pos() == pos {
+				if lsel, isSel := ast.Unparen(as.Lhs[0]).(*ast.SelectorExpr); isSel && info.Selections[lsel] != nil && info.Selections[csel] != nil && info.Selections[lsel].Obj() == info.Selections[csel].Obj() {
+					ok = lsel.Sel.Name
+				}
+			}
+		}
+		return true
+	})
+	return ok
+}
